@@ -7,6 +7,11 @@ counts; the public results must be bit-identical to the sequential run, and the 
 ARRIVAL order together with the final arrays are handed to Coq, where the keyed-fold model of
 Model/Schedule.v must reproduce the final arrays (c05_counts_case, c05_hist_case).  The real
 multiprocessing pool is run as well (2, 4 and, in the thorough tier, 16 workers).
+
+Process history (props/c05_history.py, props/c05_fresh.py, Model/MemoHistory.v): after histories of 5-40 configurations that
+were created, used and discarded in this process (addresses recycled), one configuration is measured with 1 worker, on the
+simulated and on the real pool and through an equal-valued second object; all must equal, bit for bit, the measurement of a
+process without any history; the logged history (Alloc / Use / Free over the interpreter's addresses) is checked in Coq.
 """
 import itertools
 import shutil
@@ -469,8 +474,12 @@ def run(ctx):
     run_generic(ctx)
     run_large_patch(ctx)
     run_inputs_reused(ctx)
+    # a long-lived parent with a history of discarded configurations against fresh worker processes (props/c05_history.py)
+    from props import c05_history
+    hterms, hmetas = c05_history.run(ctx)
     impl.set_threads(1)
     codes = ctx.shards("Cases_C05", HEADER, terms, shard=40)
     for (cid, meta), c in zip(metas, codes):
         if c:
             ctx.disagree("Cases_C05", cid, dict(code=c, meta=meta))
+    c05_history.finish(ctx, hterms, hmetas)
